@@ -57,12 +57,12 @@ Proof.
   destruct (match ns with Some (k, native) => _ | None => _ end) as [hc hn].
   apply foldl_core. intros s' key. destruct (gws s !! key) as [w|]; [|apply same_core_refl].
   destruct (_ && _); [apply same_core_refl|]. destruct (_ && _); [apply same_core_refl|].
-  apply update_gateway_service_core.
+  destruct (gws s' !! _) as [listed|]; [destruct (negb (g_wild listed)); [apply same_core_refl|]|]; apply update_gateway_service_core.
 Qed.
 
 Lemma check_gateway_and_update_core name kind s : same_core (check_gateway_and_update name kind s) s.
 Proof.
-  unfold check_gateway_and_update. destruct (gws_of_service name s) as [|key l]; [apply same_core_refl|].
+  unfold check_gateway_and_update. apply foldl_core. intros s' key.
   destruct (gws s !! key); [apply update_gateway_service_core|apply same_core_refl].
 Qed.
 
